@@ -1,4 +1,6 @@
 #include "explore.hpp"
+#include <sys/time.h>
+#include <cstring>
 #include <unordered_map>
 #include <sys/wait.h>
 #include <sys/stat.h>
@@ -24,7 +26,9 @@ static std::string oneline(std::string s) { for (char& c : s) if (c == '\n' || c
 
 static void child_run(const ExploreCfg& cfg, const RankMain& body, const Oracle& oracle, const Reset& reset, const std::vector<int>& prefix, int prefix_dev, const Visited* visited, const std::string& path, double timeout) {
     int nul = open("/dev/null", O_WRONLY); if (nul >= 0) { dup2(nul, 1); }
-    alarm((unsigned)std::max(1.0, timeout));
+    // watchdog against a rank that spins without any MPI call: counted in CPU time of this process (a loaded machine must not look like a
+    // hang), with a generous wall-clock backstop for the case that nothing runs at all
+    { struct itimerval it; memset(&it, 0, sizeof it); it.it_value.tv_sec = (long)std::max(1.0, timeout); setitimer(ITIMER_PROF, &it, 0); alarm((unsigned)std::max(120.0, timeout * 60)); }
     reset();
     std::vector<int> defaults; int last = -1; int dev = 0;
     Decider d = [&](size_t i, const std::vector<int>& en, const std::vector<char>& prod, uint64_t k1, uint64_t k2) -> int {
@@ -78,8 +82,8 @@ ExploreResult explore(const ExploreCfg& cfg, const RankMain& body, const Oracle&
         Slot s = slots[si]; slots.erase(slots.begin() + si); R.executions++;
         RunRec rr; bool crashed = false; std::string crash;
         if (WIFSIGNALED(st)) { crashed = true; int sg = WTERMSIG(st);
-            if (sg == SIGALRM && !s.w.retry) { Work w = s.w; w.retry = true; stack.push_back(w); R.executions--; unlink(s.path.c_str()); continue; }   // confirm with a 10x limit before calling it a hang
-            crash = sg == SIGALRM ? "a rank does not return and makes no MPI call (watchdog, confirmed with a 5x limit)" : "execution crashed with signal " + std::to_string(sg); }
+            if ((sg == SIGALRM || sg == SIGPROF) && !s.w.retry) { Work w = s.w; w.retry = true; stack.push_back(w); R.executions--; unlink(s.path.c_str()); continue; }   // confirm with a 10x limit before calling it a hang
+            crash = (sg == SIGALRM || sg == SIGPROF) ? "a rank does not return and makes no MPI call (watchdog, confirmed with a 5x limit)" : "execution crashed with signal " + std::to_string(sg); }
         else { rr = parse(s.path); if (!rr.ok_file) { crashed = true; crash = "child exited with status " + std::to_string(WEXITSTATUS(st)) + " without a result"; } }
         unlink(s.path.c_str());
         // the first counterexample ends the exploration of this configuration (executions already in flight are still collected)
